@@ -353,6 +353,7 @@ Definition unary_faithful (rowsT rowsR : list brow) : bool :=
     | Some rt, Some rr =>
         forallb (fun br =>
           let n := be_name br in
+          (n <? N_NEG) ||                    (* dunders taking an argument: covered by pair_faithful *)
           match find_entry rt n with
           | Some bt => excl_fp_mcall (be_owner br) n || implb (be_call0 br) (be_call0 bt)
           | None => excl_fp_attr (be_owner br) n
@@ -383,17 +384,25 @@ Definition presence_caught (rowsT rowsR : list brow) : bool :=
   forallb (fun c =>
     match nth_error rowsT c, nth_error rowsR c with
     | Some rt, Some rr =>
-        forallb (fun bt => match find_entry rr (be_name bt) with
+        forallb (fun bt => (be_name bt <? N_NEG) ||
+                           match find_entry rr (be_name bt) with
                            | Some br => (negb (be_name bt =? N_NEG)) || implb (be_call0 bt) (be_call0 br)
                            | None => false
                            end) (br_entries rt)
     | _, _ => false
     end) (heads rowsT).
 
+Fixpoint list_eqb (a b : list nat) : bool :=
+  match a, b with
+  | [], [] => true
+  | x :: a', y :: b' => (x =? y) && list_eqb a' b'
+  | _, _ => false
+  end.
+
 (* both generators agree on the shape: same number of heads, same linearisation restricted to the heads *)
 Definition shape_ok (rowsT rowsR : list brow) : bool :=
   (length rowsT =? length rowsR) && (0 <? length rowsT) &&
   forallb (fun c => match nth_error rowsT c, nth_error rowsR c with
-                    | Some rt, Some rr => list_beq nat Nat.eqb (br_mro rt) (br_mro rr)
+                    | Some rt, Some rr => list_eqb (br_mro rt) (br_mro rr)
                     | _, _ => false
                     end) (heads rowsT).
